@@ -162,7 +162,13 @@ def monitor(ctx, extended=False):
                 desc2 = dict(G.describe(pl), history=f'grade line at Q, then direct edit ({kind}), then grade line at the same Q')
                 check_line(ctx, pl, Q, Q, desc2)
                 k += 1
-            if ctx.rng.random() < 0.35:
+            dias = sorted({x.diameter for x in pl.pipesections if isinstance(x, Pipe)})
+            other = [x for x in dias if x != pl.pipesections[-1].diameter]
+            if other and ctx.rng.random() < 0.7:
+                # the slurry sits on a pipeline diameter that is not the discharge diameter (the viewer's Dp box allows it)
+                pl.slurry.Dp = ctx.rng.choice(other)
+                desc = dict(G.describe(pl), slurry_Dp_set_to=pl.slurry.Dp)
+            if other or ctx.rng.random() < 0.35:
                 flow_list = [Pipe(diameter=pl.slurry.Dp).flow(v) for v in pl.slurry.vls_list]
                 qmin = pl.qimin(flow_list)
                 check_line(ctx, pl, ctx.rng.choice([0, -1, 0.0]), qmin, desc)
